@@ -617,6 +617,11 @@ func RunLayer(p Params, acts []Act, concurrent bool) LayerTrace {
 				cli.VerifAge(4 * time.Second)
 				tr.Applied[i], tr.Faulty = true, true
 			}
+		case "stalesrv": // the same on the server, for what it holds of a request body (and the response it is sending)
+			if rcv, snd := srv.VerifSizes(); rcv+snd > 0 {
+				srv.VerifAge(4 * time.Second)
+				tr.Applied[i], tr.Faulty = true, true
+			}
 		case "lose": // the server's buffers time out (transfer timeout 3 s)
 			if rcv, snd := srv.VerifSizes(); rcv+snd > 0 {
 				srv.CheckExpirations(time.Now().Add(4 * time.Second))
